@@ -59,7 +59,7 @@ int init_from_cfg(const char* cfg)
 	return r;
 }
 
-static int elem_size(int ty) { switch (ty) { case SZ_FLOAT: return 4; case SZ_DOUBLE: return 8; case SZ_UINT8: case SZ_INT8: return 1; case SZ_UINT16: case SZ_INT16: return 2; case SZ_UINT32: case SZ_INT32: return 4; default: return 8; } }
+int elem_size(int ty) { switch (ty) { case SZ_FLOAT: return 4; case SZ_DOUBLE: return 8; case SZ_UINT8: case SZ_INT8: return 1; case SZ_UINT16: case SZ_INT16: return 2; case SZ_UINT32: case SZ_INT32: return 4; default: return 8; } }
 static int is_signed(int ty) { return ty == SZ_INT8 || ty == SZ_INT16 || ty == SZ_INT32 || ty == SZ_INT64; }
 
 static uint64_t lcg(uint64_t* s) { *s = *s * 6364136223846793005ULL + 1442695040888963407ULL; return *s >> 11; }
@@ -67,7 +67,7 @@ static double urand(uint64_t* s) { return (double)(lcg(s) & ((1ULL << 52) - 1)) 
 
 /* data spec:  x:<hex list of bit patterns>   or   g:<kind>:<seed>:<n>:<scale bits>:<offset bits>
  * kinds: 0 smooth sine, 1 uniform noise, 2 random walk, 3 constant blocks, 4 spiky, 5 alternating two values, 6 constant */
-static void* make_data(const char* spec, int ty, size_t* n_out)
+void* make_data(const char* spec, int ty, size_t* n_out)
 {
 	int es = elem_size(ty); size_t n; unsigned char* buf;
 	if (spec[0] == 'x') {
@@ -108,7 +108,7 @@ static void* make_data(const char* spec, int ty, size_t* n_out)
 	*n_out = n; return buf;
 }
 
-static void parse_dims(const char* s, size_t r[5])
+void parse_dims(const char* s, size_t r[5])
 {
 	uint64_t* l; size_t n = parse_list(s, &l);
 	for (int i = 0; i < 5; i++) r[i] = (i < (int)n) ? (size_t)l[i] : 0;   /* order r5,r4,r3,r2,r1 */
@@ -119,9 +119,8 @@ static double dbl_of_bits(const char* s) { uint64_t b = hx(s); double d; memcpy(
 static uint64_t bits_of_dbl(double d) { uint64_t b; memcpy(&b, &d, 8); return b; }
 
 /* error statistics "in the element type's arithmetic" */
-struct errstat { size_t viol; size_t first; double maxerr; size_t outside; double amax; };
 
-static double effective_bound(int ty, const void* data, size_t n, int mode, double absb, double rel, double* minv, double* maxv)
+double effective_bound(int ty, const void* data, size_t n, int mode, double absb, double rel, double* minv, double* maxv)
 {
 	double mn = 0, mx = 0, range = 0;
 	if (ty == SZ_FLOAT) { const float* d = data; float a = d[0], b = d[0]; for (size_t i = 1; i < n; i++) { if (d[i] < a) a = d[i]; if (d[i] > b) b = d[i]; } mn = a; mx = b; range = (double)(float)(b - a); }
@@ -146,7 +145,7 @@ static double effective_bound(int ty, const void* data, size_t n, int mode, doub
 	}
 }
 
-static void err_stats(int ty, const void* ori, const void* dec, size_t n, double e, double mn, double mx, struct errstat* st)
+void err_stats(int ty, const void* ori, const void* dec, size_t n, double e, double mn, double mx, struct errstat* st)
 {
 	st->viol = 0; st->first = (size_t)-1; st->maxerr = 0; st->outside = 0; st->amax = 0;
 	int es = elem_size(ty);
